@@ -87,6 +87,8 @@ type fnTrans struct {
 	stable    map[ssa.Value]string // cells written once: their value
 	lastSel   string
 	selIdx    map[string]string
+	selCases  map[string][]selCase // select site -> its cases (channel terms evaluated before the select)
+	curSel    []selCase
 	ghostVals map[string]sval
 	usedContracts map[string]bool
 	lockKeys  []lockKeyRef
@@ -124,7 +126,7 @@ func (g *Gen) posStr(p token.Pos) string {
 		return ""
 	}
 	ps := g.prog.Fset.Position(p)
-	f := strings.TrimPrefix(ps.Filename, "/repo/")
+	f := strings.TrimPrefix(ps.Filename, repoDir+"/")
 	return fmt.Sprintf("%s:%d", f, ps.Line)
 }
 
@@ -146,11 +148,28 @@ func (t *fnTrans) oblige(kind, disc string, pos token.Pos, goal string, note str
 	t.c.obls = append(t.c.obls, o)
 	// continue under the assumption that the check passed -- except for guard
 	// checks, whose goal is ghost lock state: assuming it would mask later
-	// unguarded accesses in the same function
-	if !strings.HasPrefix(kind, "guard.") {
+	// unguarded accesses in the same function.
+	// When a failing check means the program does not continue (panic, fatal error,
+	// self-deadlock) the assumption is operationally sound.  For every other kind it is
+	// made conditional on a flag that is switched off when the obligation is not
+	// discharged (runAll then re-solves the function), so that an unproved obligation
+	// can never make a later one vacuously true.
+	switch {
+	case strings.HasPrefix(kind, "guard."):
+	case panicKind(kind) || o.Trivial || kind == "canary" || kind == "cover":
 		t.assume(goal)
+	default:
+		o.flag = t.c.fresh("A")
+		t.c.define(o.flag, "Bool", "true")
+		t.assume(implies(q(o.flag), goal))
 	}
 	return o
+}
+
+// panicKind: a failing obligation of this kind stops the execution (run-time panic, fatal
+// error "unlock of unlocked mutex", self-deadlock), so later code may assume it held.
+func panicKind(kind string) bool {
+	return strings.HasPrefix(kind, "safe.") || kind == "lock.unheld" || kind == "lock.relock" || kind == "lock.condwait"
 }
 
 func (t *fnTrans) assume(a string) {
@@ -1153,6 +1172,11 @@ func (t *fnTrans) unop(in *ssa.UnOp) {
 		}
 		t.ownLoadHook(in, l)
 		t.tokLoadHook(in, l)
+		if _, isChan := in.Type().Underlying().(*types.Chan); isChan && t.chanNeverClosed(in) {
+			// `never_closed` field: no close() in the code base targets it (safe.close
+			// "neverclosed" obligations at every close site), so what it holds is open
+			t.assume(not(sel(t.h.get(t.cur, "chclosed"), t.val(in))))
+		}
 	case token.NOT:
 		t.setVal(in, not(t.val(in.X)))
 	case token.SUB:
